@@ -642,7 +642,7 @@ theorem setLock_skel_congr (w1 w2 : World) (l : Option BId) (h : w1.skel = w2.sk
   simp only [World.setLock, hi, ha, hs, hn, hp]
 
 theorem peOpen_skel (w : World) (p : Proc) (b : BId) (e : EId) :
-    (peOpen w p b e).skel = (w.setAct p (some { bus := b, ev := e, todo := applicable w b e, running := [] })).skel := by
+    (peOpen w p b e).skel = (w.setAct p (some { bus := b, ev := e, todo := applicable w b e, running := [], sel := applicable w b e })).skel := by
   unfold peOpen; simp only []; split
   · rw [markComplete_skel]; rfl
   · rfl
